@@ -33,3 +33,10 @@ for alg in (0, 1):
                                   src="harness/h2c.c", defs=["-DALG512=%d" % alg, "-DHLEN=%d" % hl, "-DCTXLEN=%d" % cl], cbmc=["--unwind", "302", "--unwinding-assertions", "--object-bits", "14"], timeout=900, tier=t,
                                   assumes=["SHA-256 / SHA-512 replaced by logging stubs returning arbitrary-but-known digests", "byte equality of the output with b_1||b_2.. is not part of this obligation"],
                                   bound="none on the message (constant context length %d; message length <= 4096)" % cl))
+
+OBLIGATIONS += [
+    ob("c07.f.ristretto_points", "hf_ristretto_points", ["crypto_core_ristretto255_is_valid_point", "crypto_core_ristretto255_add", "crypto_core_ristretto255_sub", "crypto_core_ristretto255_random"],
+       "Ristretto255: valid-point == decodable; add/sub reject invalid encodings and write nothing; random element from 64 random bytes", src="harness/ristretto.c", props=("C07", "C18", "C12"), cbmc=["--unwind", "70", "--unwinding-assertions"]),
+    ob("c07.f.ristretto_scalarmult", "hf_ristretto_scalarmult", ["crypto_scalarmult_ristretto255", "crypto_scalarmult_ristretto255_base"],
+       "Ristretto255 scalar multiplication: invalid points rejected first, scalar unclamped (bit 255 cleared), identity result => -1", src="harness/ristretto.c", cbmc=["--unwind", "34", "--unwinding-assertions"]),
+]
